@@ -153,6 +153,9 @@ def main():
              "CC(=C)C1CCC2(CCC3(C)C(CCC4C5(C)CCC(OC(C)=O)C(C)(C)C5CCC34C)C12)C(O)=O.CCCCCCCCN.CCO>>"
              "CCCCCCCCNC(=O)C12CCC(C)(C)CC1C1=CCC3C4(C)CCC(O)C(C)(C)C4CCC3(C)C1(C)CC2"]
     nb, bsz = (4, 24) if tier == "quick" else (40, 40)
+    # ONE searcher object for all batches, as Balancer keeps one for all batches of a call: the fixed reactions recur
+    # in every batch at other positions (ids restart per batch)
+    searcher = MCSSearch("id", solved_col="solved", mcs_data_col="mcs", issue_col="issue", n_jobs=8)
     for b in range(nb):
         rx = list(fixed) + corpus.sample(pool, bsz, rng)
         seen = set()
@@ -160,7 +163,6 @@ def main():
         rng.shuffle(rx)
         flags = [oracle.balanced(s) is True or (rng.random() < 0.1) for s in rx]
         rows = prepare(rx, flags)
-        searcher = MCSSearch("id", solved_col="solved", mcs_data_col="mcs", issue_col="issue", n_jobs=8)
         unsolved = [copy.deepcopy(r) for r in rows if not r["solved"]]
         cond_results = ensemble_mcs(unsolved, searcher.conditions, id_col="id", issue_col="issue", n_jobs=8)
         totals = {}
